@@ -143,6 +143,11 @@ class World:
     # -- leaf values ----------------------------------------------------------
     def leaf(self, base, h):
         if base == "Int":
+            if self.nonfinite and h % 7 == 0:
+                # native ints the Int scalar cannot represent (a millisecond
+                # timestamp, a 64-bit id)
+                return (2 ** 31 + 5, -(2 ** 31) - 5, 1600000000000,
+                        10 ** 20)[(h // 7) % 4]
             return (h % 2001) - 1000
         if base == "Float":
             if self.nonfinite and h % 5 == 0:
